@@ -26,12 +26,12 @@ type CaseSpec struct {
 	Constraint int  `json:"constraint"` // 0 both, 1 OnlyMarshal, 2 OnlyUnmarshal
 	Before     int  `json:"before"`     // 0 nil, 1 ok, 2 returns error, 3 panics
 	After      int  `json:"after"`      // same
-	Pred       int  `json:"pred"`       // 0 nil, 1 AnyError, 2 Error(exact), 3 ErrorHasPrefix, 4 ErrorHasSuffix, 5 ErrorMatch(valid), 6 ErrorMatch(invalid pattern)
+	Pred       int  `json:"pred"`       // 0 nil, 1 AnyError, 2 Error(exact), 3 ErrorHasPrefix, 4 ErrorHasSuffix, 5 ErrorMatch(valid), 6 ErrorMatch(invalid pattern), 7 ErrorMatch(first line of the error text followed by .*$: met only by one-line texts)
 	PredHit    bool `json:"pred_hit"`   // predicate text chosen to match (true) or to miss (false) the scripted error text
 	MOut       int  `json:"m_out"`      // marshal: 0 right data, 1 wrong data, 2 nil data
-	MErr       int  `json:"m_err"`      // marshal: 0 no error, 1 error, 2 panic, 3 an error value that is a nil pointer of an error type
+	MErr       int  `json:"m_err"`      // marshal: 0 no error, 1 error, 2 panic, 3 an error value that is a nil pointer of an error type, 4 error with a two-line text
 	UStore     int  `json:"u_store"`    // unmarshal: 0 stores the expected value, 1 stores a different value, 2 stores nothing
-	UErr       int  `json:"u_err"`      // unmarshal: 0 no error, 1 error, 2 panic (after storing), 3 nil-pointer error value
+	UErr       int  `json:"u_err"`      // unmarshal: 0 no error, 1 error, 2 panic (after storing), 3 nil-pointer error value, 4 error with a two-line text
 	NilValue   bool `json:"nil_value"`  // pointer type only: the case's Value is a nil pointer
 	EmptyData  bool `json:"empty_data"` // OnlyMarshal cases only: the expected Data is empty (the marshaler returns nil or an empty slice)
 }
@@ -190,6 +190,48 @@ func (s *PRecv) UnmarshalJSON(b []byte) error {
 	return doUnmarshal(b, func(t int, p string) { s.Tag, s.Payload = t, p })
 }
 
+// TextOnly, JSONOnly and BinOnly implement one format only; Mixed marshals as JSON and unmarshals from text only. One type
+// parameter then has the interface for one helper and lacks it for the next.
+type TextOnly struct {
+	Tag     int
+	Payload string
+}
+
+func (s TextOnly) MarshalText() ([]byte, error) { return doMarshal(s.Tag) }
+func (s *TextOnly) UnmarshalText(b []byte) error {
+	return doUnmarshal(b, func(t int, p string) { s.Tag, s.Payload = t, p })
+}
+
+type JSONOnly struct {
+	Tag     int
+	Payload string
+}
+
+func (s JSONOnly) MarshalJSON() ([]byte, error) { return doMarshal(s.Tag) }
+func (s *JSONOnly) UnmarshalJSON(b []byte) error {
+	return doUnmarshal(b, func(t int, p string) { s.Tag, s.Payload = t, p })
+}
+
+type BinOnly struct {
+	Tag     int
+	Payload string
+}
+
+func (s BinOnly) MarshalBinary() ([]byte, error) { return doMarshal(s.Tag) }
+func (s *BinOnly) UnmarshalBinary(b []byte) error {
+	return doUnmarshal(b, func(t int, p string) { s.Tag, s.Payload = t, p })
+}
+
+type Mixed struct {
+	Tag     int
+	Payload string
+}
+
+func (s Mixed) MarshalJSON() ([]byte, error) { return doMarshal(s.Tag) }
+func (s *Mixed) UnmarshalText(b []byte) error {
+	return doUnmarshal(b, func(t int, p string) { s.Tag, s.Payload = t, p })
+}
+
 // Both is an interface type used as T: the case values are *SP pointers held in the interface.
 type Both interface {
 	MarshalText() ([]byte, error)
@@ -304,6 +346,16 @@ func predicate(cs CaseSpec, idx int, e errInfo) (fn test.AssertErrorFunc, text s
 			text = "^" + regexp.QuoteMeta(known)
 		}
 		return test.ErrorMatch(text), text
+	case 7:
+		line := known
+		if i := strings.IndexAny(line, "\r\n"); i >= 0 {
+			line = line[:i]
+		}
+		if !e.isErr {
+			line = "no error " + strconv.Itoa(idx)
+		}
+		text = "^" + regexp.QuoteMeta(line) + ".*$"
+		return test.ErrorMatch(text), text
 	default:
 		text = "(unclosed[" + strconv.Itoa(idx)
 		return test.ErrorMatch(text), text
@@ -335,13 +387,21 @@ func evalPred(kind int, text string, e errInfo) bool {
 	case 5:
 		ok, err := regexp.MatchString(text, full)
 		return err == nil && ok
+	case 7:
+		if partial {
+			// a panic error: a line break and the stack follow the known prefix, and "." does not match a line break
+			ok, err := regexp.MatchString(text, full+"\ngoroutine 1 [running]:\n")
+			return err == nil && ok
+		}
+		ok, err := regexp.MatchString(text, full)
+		return err == nil && ok
 	}
 	return false
 }
 
 // silentNonMatch is the matcher of finding F10/K1: ErrorMatch with a valid pattern that does not match a non-nil error.
 func silentNonMatch(cs CaseSpec, text string, e errInfo) bool {
-	return cs.Pred == 5 && e.isErr && !evalPred(5, text, e)
+	return (cs.Pred == 5 || cs.Pred == 7) && e.isErr && !evalPred(cs.Pred, text, e)
 }
 
 type caseModel struct {
@@ -376,6 +436,8 @@ func errOf(cs CaseSpec, marshal bool, tag int) errInfo {
 			return errInfo{isErr: true, prefix: "panic: pboom 100%d %v " + t + "\n"}
 		case cs.MErr == 3:
 			return errInfo{isErr: true, exact: "typed nil error", prefix: "typed nil error"}
+		case cs.MErr == 4:
+			return errInfo{isErr: true, exact: "boom line one " + t + "\nline two.", prefix: "boom line one " + t + "\nline two."}
 		}
 		return errInfo{}
 	}
@@ -390,6 +452,8 @@ func errOf(cs CaseSpec, marshal bool, tag int) errInfo {
 		return errInfo{isErr: true, prefix: "panic: upboom 50% full " + t + "\n"}
 	case 3:
 		return errInfo{isErr: true, exact: "typed nil error", prefix: "typed nil error"}
+	case 4:
+		return errInfo{isErr: true, exact: "uboom line one " + t + "\r\nline two", prefix: "uboom line one " + t + "\r\nline two"}
 	}
 	return errInfo{}
 }
@@ -484,6 +548,8 @@ func runList[T any](spec ListSpec, mkValue func(tag int, payload string, isNil b
 			ms.err = errors.New("boom 100%s " + strconv.Itoa(tag))
 		case 2:
 			ms.panic = "pboom 100%d %v " + strconv.Itoa(tag)
+		case 4:
+			ms.err = errors.New("boom line one " + strconv.Itoa(tag) + "\nline two.")
 		}
 		mReg.Store(tag, ms)
 		us := uScript{tag: tag, payload: "p" + strconv.Itoa(tag)}
@@ -501,6 +567,8 @@ func runList[T any](spec ListSpec, mkValue func(tag int, payload string, isNil b
 			us.err = errors.New("uboom %!x " + strconv.Itoa(tag))
 		case 2:
 			us.panic = "upboom 50% full " + strconv.Itoa(tag)
+		case 4:
+			us.err = errors.New("uboom line one " + strconv.Itoa(tag) + "\r\nline two")
 		}
 		uReg.Store(tag, us)
 		defer mReg.Delete(tag)
@@ -645,13 +713,32 @@ func run(spec ListSpec, indices []int, second bool) (*recorder, *recorder, int, 
 		return runList(spec, func(tag int, p string, _ bool) PRecv { return PRecv{tag, p} }, indices, second)
 	case "Both":
 		return runList(spec, func(tag int, p string, _ bool) Both { return &SP{tag, p} }, indices, second)
+	case "TextOnly":
+		return runList(spec, func(tag int, p string, _ bool) TextOnly { return TextOnly{tag, p} }, indices, second)
+	case "JSONOnly":
+		return runList(spec, func(tag int, p string, _ bool) JSONOnly { return JSONOnly{tag, p} }, indices, second)
+	case "BinOnly":
+		return runList(spec, func(tag int, p string, _ bool) BinOnly { return BinOnly{tag, p} }, indices, second)
+	case "Mixed":
+		return runList(spec, func(tag int, p string, _ bool) Mixed { return Mixed{tag, p} }, indices, second)
 	}
 	panic("unknown type " + spec.Type)
 }
 
 var caseNo = regexp.MustCompile(`case (\d+) failed`)
 
-func hasIface(typ string, marshal bool) bool {
+func hasIface(typ, helper string, marshal bool) bool {
+	format := strings.TrimPrefix(strings.TrimPrefix(helper, "Marshal"), "Unmarshal")
+	switch typ {
+	case "TextOnly":
+		return format == "Text"
+	case "JSONOnly":
+		return format == "JSON"
+	case "BinOnly":
+		return format == "Binary"
+	case "Mixed":
+		return (marshal && format == "JSON") || (!marshal && format == "Text")
+	}
 	switch typ {
 	case "SV", "SP", "Both":
 		return true
@@ -701,7 +788,7 @@ func verdict(spec ListSpec, w *vkit.W, rec *recorder, base int, mainMarshal, dir
 	if mainMarshal != dirMarshal {
 		name = map[bool]string{true: "Marshal", false: "Unmarshal"}[dirMarshal] + strings.TrimPrefix(strings.TrimPrefix(spec.Helper, "Marshal"), "Unmarshal") + " (second helper on the same case slice)"
 	}
-	if !hasIface(spec.Type, dirMarshal) {
+	if !hasIface(spec.Type, spec.Helper, dirMarshal) {
 		applicable := false
 		for _, cs := range spec.Cases {
 			if (dirMarshal && cs.Constraint != 2) || (!dirMarshal && cs.Constraint != 1) {
@@ -774,7 +861,7 @@ func judge(spec ListSpec, w *vkit.W) (anyUnsat bool) {
 	}
 	n1 := verdict(spec, w, rec, base, marshal, marshal, "")
 	verdict(spec, w, rec2, base, marshal, !marshal, "")
-	if !hasIface(spec.Type, marshal) {
+	if !hasIface(spec.Type, spec.Helper, marshal) {
 		return n1 > 0
 	}
 	// per-case verdicts: every applicable case alone
@@ -833,7 +920,7 @@ func truncateAll(ss []string) []string {
 // ---- generation ----------------------------------------------------------------------------------------------------------------
 
 var helpers = []string{"MarshalText", "UnmarshalText", "MarshalBinary", "UnmarshalBinary", "MarshalJSON", "UnmarshalJSON"}
-var typesAll = []string{"SV", "SP", "SV", "SP", "NoIface", "MOnly", "UOnly", "PRecv", "Both"}
+var typesAll = []string{"SV", "SP", "SV", "SP", "NoIface", "MOnly", "UOnly", "PRecv", "Both", "TextOnly", "JSONOnly", "BinOnly", "Mixed"}
 
 func genCase(rt *rapid.T) CaseSpec {
 	hookG := rapid.SampledFrom([]int{0, 0, 0, 0, 1, 1, 2, 3, 4, 5, 6})
@@ -841,12 +928,12 @@ func genCase(rt *rapid.T) CaseSpec {
 		Constraint: rapid.SampledFrom([]int{0, 0, 1, 2}).Draw(rt, "constraint"),
 		Before:     hookG.Draw(rt, "before"),
 		After:      hookG.Draw(rt, "after"),
-		Pred:       rapid.SampledFrom([]int{0, 0, 0, 1, 2, 3, 4, 5, 5, 6}).Draw(rt, "pred"),
+		Pred:       rapid.SampledFrom([]int{0, 0, 0, 1, 2, 3, 4, 5, 5, 6, 7, 7}).Draw(rt, "pred"),
 		PredHit:    rapid.Bool().Draw(rt, "predHit"),
 		MOut:       rapid.SampledFrom([]int{0, 0, 1, 2}).Draw(rt, "mOut"),
-		MErr:       rapid.SampledFrom([]int{0, 0, 1, 2, 3}).Draw(rt, "mErr"),
+		MErr:       rapid.SampledFrom([]int{0, 0, 1, 2, 3, 4}).Draw(rt, "mErr"),
 		UStore:     rapid.SampledFrom([]int{0, 0, 1, 2}).Draw(rt, "uStore"),
-		UErr:       rapid.SampledFrom([]int{0, 0, 1, 2, 3}).Draw(rt, "uErr"),
+		UErr:       rapid.SampledFrom([]int{0, 0, 1, 2, 3, 4}).Draw(rt, "uErr"),
 		NilValue:   rapid.IntRange(0, 9).Draw(rt, "nilValue") == 0,
 		EmptyData:  rapid.IntRange(0, 7).Draw(rt, "emptyData") == 0,
 	}
@@ -934,6 +1021,19 @@ func TestCheck(t *testing.T) {
 				}
 			}
 		}
+		for con := 0; con < 3; con++ { // two-line error texts and panics against every predicate kind, incl. the first-line pattern
+			for pred := 0; pred <= 7; pred++ {
+				for hit := 0; hit < 2; hit++ {
+					for out := 0; out < 3; out++ {
+						for _, er := range []int{1, 2, 4} {
+							if pred == 7 || er == 4 {
+								specs = append(specs, CaseSpec{Constraint: con, Pred: pred, PredHit: hit == 1, MOut: out, MErr: er, UStore: out, UErr: er})
+							}
+						}
+					}
+				}
+			}
+		}
 		for con := 0; con < 3; con++ { // nil pointer values (pointer type only)
 			for pred := 0; pred <= 6; pred++ {
 				for hit := 0; hit < 2; hit++ {
@@ -945,7 +1045,7 @@ func TestCheck(t *testing.T) {
 				}
 			}
 		}
-		types := []string{"SV", "SP", "NoIface", "MOnly", "UOnly", "PRecv", "Both"}
+		types := []string{"SV", "SP", "NoIface", "MOnly", "UOnly", "PRecv", "Both", "TextOnly", "JSONOnly", "BinOnly", "Mixed"}
 		r.Parallel(int64(len(specs)), 16, func(w *vkit.W, lo, hi int64) {
 			for i := lo; i < hi; i++ {
 				for _, h := range helpers {
@@ -991,6 +1091,7 @@ func TestCheck(t *testing.T) {
 			{Constraint: 1, Pred: 6, MErr: 1, MOut: 2}, {Constraint: 2, Pred: 5, UErr: 1, UStore: 2},
 			{After: 4}, {Before: 4, Constraint: 1}, {Constraint: 1, EmptyData: true, MOut: 2},
 			{MErr: 3, UErr: 3}, {MErr: 3, UErr: 3, MOut: 2, UStore: 2, Pred: 2, PredHit: true},
+			{Pred: 7, MErr: 1, MOut: 2, UErr: 1, UStore: 2}, {Pred: 7, MErr: 4, MOut: 2, UErr: 4, UStore: 2}, {Pred: 7, MErr: 2, MOut: 2, UErr: 2, UStore: 2}, {Pred: 3, PredHit: true, MErr: 4, MOut: 2, UErr: 4, UStore: 2},
 			{Before: 5}, {Before: 6, After: 2}, {Before: 6, After: 3, MErr: 2, UErr: 2, Pred: 3, PredHit: true, UStore: 2}, // hooks that rewrite the case they are handed; nil result for empty data
 		}
 		np := int64(len(pal))
